@@ -498,6 +498,20 @@ def i_signed_by(I, args, ins):
     return cond
 
 
+@intrinsic('verifVerifyString')
+def i_verify_string(I, args, ins):
+    ctx = I.ctx
+    content, sig, method, kind, id = args
+    info = bytes_info(I, sig)
+    if info is None or info[0] != 'signature-of-string':
+        return False
+    kind = ctx.concretize(kind, 0, 2, 'kind')
+    id = ctx.concretize(id, 0, 3, 'id')
+    if info[1] != (kind, id):
+        return False
+    return I.eq(info[2], content)
+
+
 @intrinsic('verifParseAssertionBytes')
 def i_parse_bytes(I, args, ins):
     ctx = I.ctx
@@ -509,3 +523,95 @@ def i_parse_bytes(I, args, ins):
 
 def install(prog):
     pass
+
+
+# ------------------------------------------------------------------ writer pipelines: doc.WriteTo(flate(base64(builder)))
+
+from ..core import OPAQUE_IMPLEMENTS as _OI
+_OI['*verif.b64writer'] = {'io.WriteCloser', 'io.Writer', 'io.Closer'}
+_OI['*verif.flatewriter'] = {'io.WriteCloser', 'io.Writer', 'io.Closer'}
+
+
+def _sink_write(I, w, info):
+    """Deliver content `info` (a bytes tag) to writer w."""
+    from .base import _buf
+    ctx = I.ctx
+    w = ctx.force(w)
+    if isinstance(w, Iface) and w.dyn in ('*verif.b64writer', '*verif.flatewriter'):
+        ctx.ghost['writers'][w.val.cell]['pending'].append(info)
+        return
+    if isinstance(w, Iface) and w.dyn in ('*strings.Builder', '*bytes.Buffer'):
+        if info[0] == 'b64of':
+            s = ctx.fresh_str('b64')
+            ctx.ghost.setdefault('string_tag', {})[str(s)] = info
+            _buf(I, w.val).append(s)
+        else:
+            sl = tag_bytes(I, info, 'written')
+            _buf(I, w.val).append(('bytes', I.slice_elems(sl)))
+        return
+    if isinstance(w, Ptr):    # *flate.Writer receives through its underlying writer
+        return
+    raise Inconclusive('writer pipeline into %r' % (w,))
+
+
+@stub('encoding/base64.NewEncoder')
+def b64_new_encoder(I, args, ins):
+    ctx = I.ctx
+    p = ctx.alloc(StructV([]), 'b64writer')
+    ctx.ghost.setdefault('writers', {})[p.cell] = {'kind': 'b64', 'under': args[1], 'pending': []}
+    return Iface('*verif.b64writer', p)
+
+
+@stub('compress/flate.NewWriter')
+def flate_new_writer(I, args, ins):
+    ctx = I.ctx
+    p = ctx.alloc(StructV([]), 'flatewriter')
+    ctx.ghost.setdefault('writers', {})[p.cell] = {'kind': 'flate', 'under': args[0], 'pending': []}
+    return TupleV((p, None))
+
+
+def _writer_write(I, recv, args, ins):
+    ctx = I.ctx
+    w = ctx.ghost['writers'][recv.cell]
+    info = bytes_info(I, args[0])
+    if info is None:
+        info = ('raw', tuple(str(e) for e in I.slice_elems(args[0])))
+    w['pending'].append(info)
+    return TupleV((I.length(args[0]), None))
+
+
+def _writer_close(I, recv, args, ins):
+    ctx = I.ctx
+    w = ctx.ghost['writers'][recv.cell]
+    if len(w['pending']) != 1:
+        if not w['pending']:
+            return None
+        raise Inconclusive('writer pipeline with %d writes' % len(w['pending']))
+    info = w['pending'][0]
+    w['pending'] = []
+    out = ('deflate', info) if w['kind'] == 'flate' else ('b64of', info)
+    _sink_write(I, w['under'], out)
+    return None
+
+
+INVOKE_STUBS[('*verif.b64writer', 'Write')] = _writer_write
+INVOKE_STUBS[('*verif.b64writer', 'Close')] = _writer_close
+STUBS['(*compress/flate.Writer).Write'] = lambda I, args, ins: _writer_write(I, I.ctx.force(args[0]), args[1:], ins)
+STUBS['(*compress/flate.Writer).Close'] = lambda I, args, ins: _writer_close(I, I.ctx.force(args[0]), args[1:], ins)
+STUBS['(*compress/flate.Writer).Flush'] = lambda I, args, ins: None
+
+
+@stub('(*' + ET + 'Document).WriteTo')
+def doc_write_to(I, args, ins):
+    ctx = I.ctx
+    root = ctx.force(I.call_function('(*' + ET + 'Document).Root', [args[0]]))
+    snap = ctx.force(I.call_function('(' + EL + ').Copy', [root])) if root is not None else None
+    w = ctx.force(args[1])
+    info = ('serialize', snap)
+    if isinstance(w, Ptr) and ctx.ghost.get('writers', {}).get(w.cell) is not None:
+        ctx.ghost['writers'][w.cell]['pending'].append(info)
+    elif isinstance(w, Iface) and isinstance(w.val, Ptr) and ctx.ghost.get('writers', {}).get(w.val.cell) is not None:
+        ctx.ghost['writers'][w.val.cell]['pending'].append(info)
+    else:
+        _sink_write(I, w, info)
+    return TupleV((1, None))
